@@ -209,8 +209,8 @@ theorem fromString_exp_iff (p : Nat) (m : Int) (s : Str) :
 /-! ## FromString of a plain decimal literal
 
 A literal is `litText sg ip fo` = optional sign `sg`, integer digits `ip` (possibly none), optionally '.' and fraction
-digits (`fo = some fp`, possibly none), with at least one digit (`IsLiteral`; the code rejects a '+' that is not
-followed by an integer digit, e.g. "+.5", so that form is excluded).  Its value truncated toward zero to `p` places is
+digits (`fo = some fp`, possibly none), with at least one digit (`IsLiteral`; no further restriction: ".5", "-.5",
+"+.5", "5.", "-00.5" are all literals).  Its value truncated toward zero to `p` places is
 the raw value `litVal p sg ip fo = ±(ip · 10^p + ⌊0.fp · 10^p⌋)`. -/
 
 /-- **f64: a plain decimal literal whose truncated value is representable parses to exactly that value** (never
@@ -246,7 +246,15 @@ theorem literal_fraction_truncates (p : Nat) (fp : Str) (h : ∀ c ∈ fp, isDig
     sign defect, and a truncation 0.57 ↦ 0.5) -/
 example : IsLiteral .minus [48, 48] (some [53, 55]) ∧ litText .minus [48, 48] (some [53, 55]) = [45, 48, 48, 46, 53, 55] ∧
     litVal 1 .minus [48, 48] (some [53, 55]) = -5 := by
-  refine ⟨⟨by decide, ?_, Or.inl (by decide), by decide⟩, rfl, by decide⟩
+  refine ⟨⟨by decide, ?_, Or.inl (by decide)⟩, rfl, by decide⟩
+  intro fp h c hc
+  cases h
+  revert c; decide
+
+/-- non-vacuity: "+.5" (sign, no integer digit) is a literal; with two places its value is the raw value 50 -/
+example : IsLiteral .plus [] (some [53]) ∧ litText .plus [] (some [53]) = [43, 46, 53] ∧
+    litVal 2 .plus [] (some [53]) = 50 := by
+  refine ⟨⟨by decide, ?_, Or.inr ⟨[53], rfl, by decide⟩⟩, rfl, by decide⟩
   intro fp h c hc
   cases h
   revert c; decide
